@@ -492,9 +492,11 @@ PROPS["C12"] = dict(
                "ALL positive sizes: the generated tables equal the specification tables (index bijection + finite table "
                "facts), the resulting map is well-formed, faces are the per-cell cycles, neighbours are glued exactly along "
                "shared sides with a free rim. Vertex positions/counts, orientation/area, descriptor equivalence, error "
-               "clauses: exhaustive box of sizes, model vs implementation and extracted oracle. 3D builder: the hex tables are "
-               "translated too and replayed against the implementation for every size of a box, and the extracted validator "
-               "grid3_spec checks hexahedra, lattice vertices and face gluing on every grid; no all-sizes proof in 3D (partial)",
+               "clauses: exhaustive box of sizes, model vs implementation and extracted oracle. 3D builder: the hex table is "
+               "translated too and proved, for ALL positive sizes, to be the closed-form hexahedral mesh and a well-formed 3-map "
+               "with mirrored glued faces (C12_hex_grid_wf, C12_hex_table_is_spec, Build/Grid3.v); the translated table is replayed "
+               "against the implementation for every size of a box and the extracted validator grid3_spec checks hexahedra, "
+               "lattice vertices and face gluing on every grid (vertex positions in 3D: per observation + the corner table lemma)",
     technique="translator (Rust tables -> Gallina) + Coq proof for all sizes + exhaustive-box correspondence and oracle",
     translators=True,
     families=[],
